@@ -22,11 +22,12 @@ for x in f:
         fixed.append("| %s | %s | %s | %s |" % (x["key"], " ".join(x["properties"]), x["commit"], esc(x["what_fails"])))
     else:
         openf.append("| %s | %s | %s | %s | %s |" % (x["key"], " ".join(x["properties"]), esc(x["what_fails"]), FENCES.get(x["key"], "-"), esc(x.get("why_not_fixed", ""))))
-seeded = ["| seed | property | needs to manifest | verdict per check |", "|---|---|---|---|"]
+seeded = ["| seed | property | needs to manifest | verdict per check (now) | missed at first -> what was added |", "|---|---|---|---|---|"]
 for m in sorted(glob.glob(os.path.join(V, "seeded", "*", "meta.json"))):
     d = json.load(open(m))
-    seeded.append("| %s | %s | %s | %s |" % (d["name"], d["property"], esc(d.get("needs_to_manifest", ""))[:160],
-                                            ", ".join("%s: %s" % (k, v["verdict"]) for k, v in d.get("checks", {}).items())))
+    seeded.append("| %s | %s | %s | %s | %s |" % (d["name"], d["property"], esc(d.get("needs_to_manifest", ""))[:160],
+                                                 ", ".join("%s: %s" % (k, v["verdict"]) for k, v in d.get("checks", {}).items()),
+                                                 esc(d.get("missed_at_first", ""))))
 tables = {"FIXED": "\n".join(fixed), "OPEN": "\n".join(openf), "SEEDED": "\n".join(seeded)}
 p = os.path.join(V, "DESIGN.md")
 s = open(p).read()
